@@ -8,4 +8,5 @@ for p in $(python3 -c "import json; print(' '.join(c['property_id'] for c in jso
   echo "$p exit=$e $(echo "$out" | grep -E "obligations discharged" | head -1)"
   if [ $e -ne 0 ]; then echo "$out" | grep -E "VIOLATION|UNDECIDED|FAILED" | head -5; rc=1; fi
 done
+python3-vt /verif/audit_evidence.py || rc=1
 exit $rc
